@@ -18,7 +18,7 @@ def table():
     for l in p.stdout.splitlines():
         x = l.split()
         if x[0] == 'DEV':
-            devs[x[1]] = dict(flash=int(x[2]), ram_start=int(x[3]), ram_size=int(x[4]), eeprom=int(x[5]))
+            devs[x[1]] = dict(flash=int(x[2]), ram_start=int(x[3]), ram_size=int(x[4]), eeprom=int(x[5]), opts=x[6], avr8l=x[7] == '1')
         if x[0] == 'DEFAULTDEV':
             default = dict(flash=int(x[1]), ram_start=int(x[2]), ram_size=int(x[3]), eeprom=int(x[4]))
     return devs, default
@@ -27,6 +27,11 @@ def cases(tier):
     devs, default = table()
     pd = {r[1]: r for r in partdefs(vlib.REPO)}
     out = []   # (source, expect_ok, expect dict or None, note)
+    # which devices have sts at all (verdict of the independent device-requirement table)
+    from . import enc_common as EC
+    names = sorted(devs)
+    gate, _, _ = vlib.run_lines(EC.SPEC, ['%d GATE %s sts v64 r16' % (i, devs[nm]['opts']) for i, nm in enumerate(names)], mode=None)
+    has_sts = {nm: gate.get(str(i)) == 'ALLOW' for i, nm in enumerate(names)}
     for name, d in sorted(devs.items()):
         cap = dict(d)
         if name in pd:
@@ -45,6 +50,14 @@ def cases(tier):
                 out.append((hdr + '.org %d\n.db 7' % (n - 1), ok, dict(sizes, code_len=2 * n, rf=0), 'flash/.org+odd db'))
             if n >= 2:
                 out.append((hdr + '.org %d\n.dd 1' % (n - 2), ok, dict(sizes, code_len=2 * n, rf=0), 'flash/.org+dd'))
+            # the last instruction is an sts: two words, one word on the reduced core - counted as emitted
+            L = 1 if d['avr8l'] else 2
+            if has_sts[name] and n >= L:
+                out.append((hdr + '.org %d\nsts 0x40, r16' % (n - L), ok, dict(sizes, code_len=2 * n, rf=0), 'flash/.org+sts'))
+                if F <= 4096:
+                    out.append((hdr + 'nop\n' * (n - L) + 'sts 0x40, r16', ok, dict(sizes, code_len=2 * n, rf=0), 'flash/code+sts'))
+                    if n % L == 0:
+                        out.append((hdr + 'lds r16, 0x40\n' * (n // L), ok, dict(sizes, code_len=2 * n, rf=0), 'flash/all lds'))
             if F <= 4096 and n >= 0:
                 out.append((hdr + 'nop\n' * n, ok, dict(sizes, code_len=2 * n, rf=0), 'flash/code'))
                 out.append((hdr + '.dw 1\n' * n, ok, dict(sizes, code_len=2 * n, rf=0), 'flash/data'))
@@ -175,7 +188,7 @@ def run(tier, seed, model_ok):
                 vio.append({'what': 'program that needs one unit more than the device has (or selects an unknown/second device) builds', 'source': short, 'impl': a[:60] + '...', 'expected': 'error', 'key': note})
     return {
         'evaluations': len(cs), 'distinct_nontrivial': len({c[0] for c in cs}),
-        'rule': 'every device of the table x flash/EEPROM/RAM x usage capacity-1, capacity, capacity+1 reached by .org+instruction, .org+data (even, odd .db, .dd), plain code and data lines (small devices), .byte reservations, labelled one-byte variables; the same followed by a line that occupies nothing (.set, .def, #pragma, a label, .equ+.message, .byte 0); an origin followed by a redundant directive of the memory already selected; the device chosen inside a called macro (literal and @0); an item before the origin in each memory; second and unknown device selection; the device selected through the shipped part files m48def.inc / m88def.inc (full, +1, second device); default sizes; capacities expected from the shipped part file where one exists; distinct = distinct programs',
+        'rule': 'every device of the table x flash/EEPROM/RAM x usage capacity-1, capacity, capacity+1 reached by .org+instruction, .org+data (even, odd .db, .dd), an sts/lds as the last instruction (two words, one on the reduced core), plain code and data lines (small devices), .byte reservations, labelled one-byte variables; the same followed by a line that occupies nothing (.set, .def, #pragma, a label, .equ+.message, .byte 0); an origin followed by a redundant directive of the memory already selected; the device chosen inside a called macro (literal and @0); an item before the origin in each memory; second and unknown device selection; the device selected through the shipped part files m48def.inc / m88def.inc (full, +1, second device); default sizes; capacities expected from the shipped part file where one exists; distinct = distinct programs',
         'samples': [cs[0][0], cs[7][0][:80]],
         'exhaustive': True,
         'distribution': dict(Counter(c[3] for c in cs)),
